@@ -184,13 +184,19 @@ def run(rep):
     rep.guarded("R-C07-gcd", rule_gcd)
     rep.guarded("R-C07-conserve", fftmodel.rule_conserve, "R-C07-conserve")
     rep.guarded("R-C07-exact", rule_exact)
+    # the block bookkeeping (saved_frames / frames_needed) must also be re-established by reset(): shared with C10
+    import C10
+    for t in ("FftFixedIn", "FftFixedOut", "FftFixedInOut"):
+        rep.guarded("R-C10-restore", lambda r, t=t: C10.rule_restore(r, t))
     rep.floor("R-C07-carry", 1 + 8 + 2)
     rep.floor("R-C07-gcd", 3 * 3 + 2)
     rep.floor("R-C07-conserve", 9 + 7)
     rep.floor("R-C07-exact", 4)
+    rep.floor("R-C10-restore", 11 + 6)
     rep.clause("R-C07-carry", "the fractional read position is carried between chunks (rebased by exactly the frames consumed) and the fixed-output input request follows it")
     rep.clause("R-C07-gcd", "with rate_in = g·a, rate_out = g·b the three FFT constructors give fft_size_in = chunks·a, fft_size_out = chunks·b with exact divisions, hence in·rate_out == out·rate_in; chunks is the exact ceiling division of the requested size; FftFixedInOut processes and reports exactly one block per call")
     rep.clause("R-C07-conserve", "saved' = saved + in − chunks·fft_in, out = chunks·fft_out (FftFixedIn) and the dual for FftFixedOut")
+    rep.clause("R-C10-restore (FFT types)", "reset() re-establishes saved_frames / frames_needed exactly as the constructor does, so accounting restarts consistently (shared with C10)")
     rep.clause("R-C07-exact", "no frame count is computed through usize→f32→usize; the integer division helpers are exact floor / ceiling divisions")
     rep.not_decided += ["the constant in the asynchronous drift bound", "that fixed-input loops emit ⌊…⌋ frames (depends on run-time f64 positions)"]
     rep.trusted += ["syn parser", "sympy", "num_integer::gcd returns the greatest common divisor"]
